@@ -53,6 +53,15 @@ class C17(Check):
                          _arg_cases, runner="run_struct"))
         out.append(Space("receivers", {"generator": "every operator on every kind of receiver expression"},
                          _receiver_cases, runner="run_struct"))
+        out.append(Space("positions", {"generator": "a method-form operator call in every syntactic position (arguments, keywords, "
+                                        "starred, subscripts, slices, dict keys and values, operands, conditionals, lambda defaults, "
+                                        "comprehension parts, f-strings, walrus, callee)", "positions": len(POSITIONS)},
+                         _position_cases, runner="run_struct"))
+        out.append(Space("shared-nodes", {"generator": "trees in which one node object is referenced from several places"},
+                         (lambda: list(range(N_SHARED))), runner="run_shared"))
+        out.append(Space("name-list histories", {"lists": NAME_LISTS, "histories": "every ordered pair (L1, L2): convert with L1, "
+                                                 "change THE SAME list object into L2, convert again; and with fresh list objects"},
+                         (lambda: [(i, j) for i in range(len(NAME_LISTS)) for j in range(len(NAME_LISTS))]), runner="run_names"))
         out.append(Space("pkg<=7 forms=fm", qspaces.describe("pkg", 3, 7, ("e",), ("f", "m")),
                          (lambda: qspaces.enumerate_sources("pkg", 3, 7 if Q else 8, ("e",), ("f", "m"))), runner="run_q"))
         return out
@@ -124,6 +133,62 @@ class C17(Check):
             res["oc"].append("decoys")
         return res
 
+    def run_shared(self, k):
+        res = {"n": 1, "nt": [f"shared|{k}"], "oc": ["shared"], "tags": {}, "viol": []}
+        tree = _shared_tree(k)
+        text = ast.unparse(tree)
+        want = ast.dump(_Ref().visit(ast.parse(text, mode="eval").body))
+        try:
+            r = self._transform(tree)
+        except Exception as e:
+            res["viol"].append({"kind": f"raised:{type(e).__name__}", "canon": f"shared|{k}", "msg": str(e)[:200]})
+            return res
+        got = ast.dump(ast.parse(ast.unparse(r), mode="eval").body)
+        if got != want:
+            res["viol"].append({"kind": "shared-node-not-converted-everywhere", "canon": f"shared|{k}",
+                                "msg": f"{text} -> {ast.unparse(r)[:200]}"})
+        return res
+
+    def run_names(self, payload):
+        from func_adl.ast.func_adl_ast_utils import change_extension_functions_to_calls
+
+        i, j = payload
+        res = {"n": 0, "nt": [f"names|{i}|{j}"], "oc": ["names"], "tags": {}, "viol": []}
+
+        class Ref(ast.NodeTransformer):
+            def __init__(self, names):
+                self.names = names
+
+            def visit_Call(self, node):
+                self.generic_visit(node)
+                if isinstance(node.func, ast.Attribute) and node.func.attr in self.names:
+                    return ast.Call(ast.Name(node.func.attr, ast.Load()), [node.func.value] + list(node.args), [])
+                return node
+
+        def want(names):
+            return ast.dump(Ref(list(names)).visit(qsem.parse_expr(NAMES_Q)))
+
+        for mode in ("same-object", "fresh-objects"):
+            L = list(NAME_LISTS[i])
+            steps = [list(NAME_LISTS[i]), list(NAME_LISTS[j]), list(NAME_LISTS[i])]
+            for k, names in enumerate(steps):
+                if mode == "same-object":
+                    L[:] = names
+                    arg = L
+                else:
+                    arg = list(names)
+                r = change_extension_functions_to_calls(qsem.parse_expr(NAMES_Q), arg)
+                res["n"] += 1
+                if ast.dump(r) != want(names):
+                    res["viol"].append({"kind": "conversion-ignores-the-current-name-list", "canon": f"names|{i}|{j}",
+                                        "msg": f"{mode} step {k} names {names}: {ast.unparse(r)[:200]}"})
+                    return res
+            # the default list must be unaffected by what was done with custom lists
+            r = change_extension_functions_to_calls(qsem.parse_expr(NAMES_Q))
+            if ast.dump(r) != ast.dump(_Ref().visit(qsem.parse_expr(NAMES_Q))):
+                res["viol"].append({"kind": "default-name-list-affected", "canon": f"names|{i}|{j}", "msg": ast.unparse(r)[:200]})
+        return res
+
     def run_struct(self, src):
         res = {"n": 0, "nt": [src], "oc": ["struct"], "tags": {}, "viol": []}
         self._structural(src, qsem.parse_expr(src), res, src)
@@ -149,6 +214,42 @@ def _arg_cases():
                 f"Select(ds, lambda e: e.jets.Select(lambda j: {i}).Count())",
             ]
     return sorted(set(out))
+
+
+POSITIONS = ["f({X})", "f(k={X})", "f(*{X})", "f(**{X})", "({X})[0]", "z[{X}]", "z[{X}:1]", "{{'k': {X}}}", "{{{X}: 1}}", "[{X}]", "({X}, 1)",
+             "{{{X}, 1}}", "{X} + 1", "1 + {X}", "-{X}", "not {X}", "{X} if c else d", "c if {X} else d", "c if d else {X}",
+             "{X} and c", "c or {X}", "{X} > 1", "1 < c < {X}", "lambda e, n={X}: e", "lambda e, *, n={X}: e", "lambda e: {X}",
+             "f(lambda e, n={X}: e.a + n)", "[a for a in {X}]", "[{X} for a in b]", "[a for a in b if {X}]",
+             "{{a: {X} for a in b}}", "({X} for a in b)", "{X}.attr", "{X}(1)", "f'{{{X}}}'", "(y := {X})", "{X}.decoy(1)",
+             "g(h({X}))", "{X}.Select(lambda e: {X})", "Select({X}, lambda e, n={X}: n)"]
+XS = ["ds.Select(lambda e: e.a)", "ds.jets.Count()", "ds.Where(lambda e: e.jets.First().pt > 1).First()"]
+
+
+def _position_cases():
+    return sorted({p.format(X=x) for p in POSITIONS for x in XS})
+
+
+# trees in which ONE node object is referenced from several places (as substitution inside the library produces)
+def _shared_tree(k):
+    n = ast.parse("ds.jets.Select(lambda j: j.tr.Count()).Count()", mode="eval").body
+    m = ast.parse("e.trks.First()", mode="eval").body
+    L = ast.Load()
+    lam = ast.parse("lambda e: e.jets.Where(lambda j: j.pt > 1).Count()", mode="eval").body
+    return [
+        lambda: ast.BinOp(n, ast.Add(), n),
+        lambda: ast.Tuple([n, n, m], L),
+        lambda: ast.Call(ast.Name("f", L), [n], [ast.keyword("k", n)]),
+        lambda: ast.Call(ast.Attribute(n, "Select", L), [ast.Lambda(lam.args, n)], []),
+        lambda: ast.Tuple([ast.Call(ast.Attribute(ast.Name("a", L), "Select", L), [lam], []),
+                           ast.Call(ast.Attribute(ast.Name("b", L), "Where", L), [lam], [])], L),
+        lambda: ast.IfExp(ast.Compare(n, [ast.Gt()], [m]), n, m),
+        lambda: ast.Dict([ast.Constant("p"), ast.Constant("q")], [m, m]),
+    ][k]()
+
+
+N_SHARED = 7
+NAME_LISTS = [["Select"], ["Select", "Where"], ["Count"], [], ["First", "Count", "Select", "Where"], ["Foo"]]
+NAMES_Q = "ds.Select(lambda e: e.jets.Where(lambda j: j.pt > 1).Count()).Foo(1).First()"
 
 
 RECEIVERS = ["x", "x.y", "x.y.z", "f(x)", "x.m()", "x[0]", "x['k']", "x[1:2]", "(a if c else b)", "(a, b)[0]", "[a, b][1]",
